@@ -18,6 +18,8 @@ func registerModels(in *Interp) {
 	registerStoreCommon(in)
 	registerPebbleModel(in)
 	registerPebbleHarnessHelpers(in)
+	registerOSModel(in)
+	registerJSONStream(in)
 }
 
 // ---------------------------------------------------------------- path / file-system stubs
@@ -340,4 +342,13 @@ func registerFSTable(in *Interp) {
 }
 
 
-func c18PebbleCfgs(c *CheckCtx) []*HarnessCfg { return nil }
+func c18PebbleCfgs(c *CheckCtx) []*HarnessCfg {
+	ops, sigs := int64(2), int64(2)
+	if c.Tier == "thorough" {
+		ops, sigs = 3, 3
+	}
+	return []*HarnessCfg{
+		{Name: "VerifC18_PebbleAddGet", Pkg: pebPkg, Solver: "z3", Params: map[string]int64{"ops": ops}, MaxPaths: 2000000},
+		{Name: "VerifC18_Migrate", Pkg: pebPkg, Solver: "z3", Params: map[string]int64{"sigs": sigs}, MaxPaths: 2000000, Stubs: jsonStreamStubs()},
+	}
+}
